@@ -57,7 +57,17 @@ def normal_form(text, tmod):
                 order += [f"{node.name}.{x.name}" if hasattr(x, "name") else f"{node.name}.{x.target.id}" for x in node.body if hasattr(x, "name") or isinstance(x, ast.AnnAssign)]
         elif isinstance(node, ast.ImportFrom):
             order += [f"import {node.module}.{a.name}" for a in node.names]
-    return {"imports": sorted(imports), "classes": sorted(se.class_defs) + [f"{n} x{c}" for n, c in sorted(se.td_def_counts.items()) if n not in collided],
+    # which shape every generated class NAME stands for (the classes are part of the stub; names that are defined twice are the listed
+    # collision finding and are left to it)
+    table = {}
+    for cname in sorted(se.td_nodes):
+        if "#" in cname or cname in collided:
+            continue
+        try:
+            table[cname] = RT.show(se._td_spec(cname, ()))
+        except Exception as e:  # noqa: BLE001
+            table[cname] = f"UNRESOLVED:{type(e).__name__}"
+    return {"class_table": table, "imports": sorted(imports), "classes": sorted(se.class_defs) + [f"{n} x{c}" for n, c in sorted(se.td_def_counts.items()) if n not in collided],
             "functions": funcs, "order": order, "tainted": sorted(tainted),
             "collided": sorted(collided)}, se
 
@@ -69,6 +79,11 @@ def diff_nf(a, b):
     for key in ("imports", "classes"):
         if a[key] != b[key]:
             out.append(f"{key}: {sorted(set(a[key]) ^ set(b[key]))}")
+    ta, tb = a.get("class_table", {}), b.get("class_table", {})
+    names = set(a.get("collided", ())) | set(b.get("collided", ()))
+    for cname in sorted(set(ta) & set(tb)):
+        if ta[cname] != tb[cname] and cname not in names:
+            out.append(f"generated class {cname}: {ta[cname]} vs {tb[cname]}")
     if a["order"] != b["order"] and sorted(a["order"]) == sorted(b["order"]):
         names = set(a.get("collided", ())) | set(b.get("collided", ()))
 
@@ -159,6 +174,9 @@ def work(p):
         yf = gm.FuncSpec(78, "yield_family", [], "module", "gen")
         yf.params = [gm.Param("a", "normal", vals=["1"])]
         yf.yield_vals, yf.single_yield, yf.exit = ["1", "'s'", "A()"], True, "none"
+        recf = gm.FuncSpec(68, "rec_family", [], "module", "gen")
+        recf.params = [gm.Param("n", "normal", vals=["1"])]
+        recf.yield_vals, recf.single_yield, recf.exit = ["1"], True, "none"
         # None next to dicts of one key type and several value types (the neighbourhood of RewriteConfigDict), also nested
         cfgf = gm.FuncSpec(77, "cfg_family", [], "module", "plain")
         cfgf.params = [gm.Param("cfg", "normal", vals=["None", "{'a': 1}", "{'a': 's'}", "{'b': 1.5}"]),
@@ -177,7 +195,7 @@ def work(p):
         ovf.params = [gm.Param("rows", "normal", vals=["[{'q': 1}, {'r': 2.5}]", "[{'r': 'x', 's': 1}]", "[{'t': None, 'u': b'x'}]", "[{'q': 1, 'v': A()}]",
                                                          "[{'q': 1, 'w': (1,)}, {'q': 2}]"])]
         ovf.ret_vals = ["[{'ra': 1}, {'rb': 2.5}]", "[{'rc': 'x', 'rd': 1}, {'re': None}]", "[{'rf': b'x'}]"]
-        extra = [fam, tdf, tup, abcf] + dds + [hist, yf, cfgf] + owns + [ovf]
+        extra = [fam, tdf, tup, abcf] + dds + [hist, yf, recf, cfgf] + owns + [ovf]
         nfixed = len(extra)
         if spec.get("collide"):
             # pinned witness of the listed finding: two functions share a parameter name and get differently shaped dicts
@@ -202,18 +220,45 @@ def work(p):
         plan += [(cfgf, [v, w], {}) for v, w in zip(cfgf.params[0].vals, cfgf.params[1].vals)]
         plan += [(f, ["Own()", w], {}) for f in owns for w in ("Own.Inner()", "None")]
         plan += [(ovf, [v], {}) for v in ovf.params[0].vals]
+        plan = [x for x in plan if x[0] is not recf]  # rec_family is known from the directly written traces below only
         traces = modrun.trace_plan(tmod, path, m, plan, k)
         from monkeytype.tracing import CallTrace
 
         traces += [CallTrace(tmod.hist_family, {"a": int}, int), CallTrace(tmod.hist_family, {"a": str}, int), CallTrace(tmod.hist_family, {"a": float}, int)]
         # traces that differ in exactly one component (return type only, yield type only)
         traces += [CallTrace(tmod.hist_family, {"a": int}, str), CallTrace(tmod.yield_family, {"a": int}, None, bytes), CallTrace(tmod.yield_family, {"a": int}, None, float)]
+        if k:
+            # two calls of one generator that yielded the same two record shapes in opposite order: equal as types, two rows in the store
+            import typing
+
+            from vf.gen import types as gt
+
+            def shapes():
+                return gt.ev("TD({'rx': int}, {})"), gt.ev("TD({'ry': str, 'rz': int}, {})")
+
+            (a1, b1), (a2, b2) = shapes(), shapes()
+            traces += [CallTrace(tmod.rec_family, {"n": int}, None, typing.Union[a1, b1]), CallTrace(tmod.rec_family, {"n": int}, None, typing.Union[b2, a2]),
+                       CallTrace(tmod.rec_family, {"n": str}, typing.Union[a1, b1], None), CallTrace(tmod.rec_family, {"n": str}, typing.Union[b2, a2], None)]
+            res.count("traces_differing_only_in_union_member_order", 2)
         uniq = []
         seen = set()
 
+        def okey(x):
+            """Structure of a type INCLUDING the order of union members: two traces that differ only in that order are two stored rows."""
+            import typing
+
+            if x is None:
+                return None
+            if RT._is_typeddict_meta(x):
+                return ["td", getattr(x, "__total__", True), sorted((n, okey(v)) for n, v in x.__annotations__.items())]
+            args = getattr(x, "__args__", None)
+            if args and typing.get_origin(x) is not None:
+                return [str(typing.get_origin(x)), [okey(a) if not isinstance(a, (list, tuple)) and a is not Ellipsis else repr(a) for a in args]]
+            return f"{getattr(x, '__module__', '')}.{getattr(x, '__qualname__', repr(x))}"
+
         def tkey(t):  # the harness's own notion of "distinct trace": never CallTrace.__eq__/__hash__
-            return json.dumps([t.func.__module__, t.func.__qualname__, sorted((n, RT.show(RT.to_rt(x))) for n, x in (t.arg_types or {}).items()),
-                               None if t.return_type is None else RT.show(RT.to_rt(t.return_type)), None if t.yield_type is None else RT.show(RT.to_rt(t.yield_type))])
+            return json.dumps([t.func.__module__, t.func.__qualname__, sorted((n, okey(x)) for n, x in (t.arg_types or {}).items()),
+                               okey(t.return_type), okey(t.yield_type)])
 
         for t in traces:
             if tkey(t) not in seen:
@@ -301,6 +346,7 @@ def run(ck):
     ck.need("collision_witness_sets", 1)
     ck.need("tight_limit_variants", 8)
     ck.need("traces_differing_only_in_yield", 10)
+    ck.need("traces_differing_only_in_union_member_order", 8)
     ck.need("sets_where_union_order_differed", 3, "no pair of variants in which a union's member order actually differed")
     return ck.finish(
         rule="trace sets obtained by really tracing generated modules with wide value pools (unions of up to 8 classes incl. a multiple-"
